@@ -1,1 +1,295 @@
-/-! Property theorems for C01 — placeholder until the property's model is built. -/
+import FcpptModel.Model.C01
+import FcpptProofs.Props.C06.Basic
+import FcpptProofs.Props.C06.Arith
+import FcpptProofs.Props.C06.Log2
+import FcpptProofs.Props.C06.Pow
+import FcpptProofs.Props.C06.NextPow
+import FcpptProofs.Props.C06.Trunc_u8
+import FcpptProofs.Props.C06.Trunc_u16
+import FcpptProofs.Props.C06.Trunc_u32
+import FcpptProofs.Props.C06.Trunc_u64
+import FcpptProofs.Props.C06.Trunc_i8
+import FcpptProofs.Props.C06.Trunc_i16
+import FcpptProofs.Props.C06.Trunc_i32
+import FcpptProofs.Props.C06.Trunc_i64
+set_option linter.unusedSimpArgs false
+set_option linter.unusedVariables false
+/-!
+# C01 — the safe API is total
+
+`f args = .ok r` in a model means: no out-of-bounds access, no invalid shift, no signed overflow,
+no empty-optional dereference, no division by zero, terminated (`Fault.fuel` not reached) and no
+exception.  Part 1 are the container / string / argument helpers modelled in `Model/C01.lean`;
+part 2 states totality of the *translated* scalar helpers (regenerated from /repo on every run)
+under exactly the guard "the exact result is representable" — each is a corollary of the C06
+correctness theorem for that instantiation, restated here in the `∃ r, f x = .ok r` form of C01
+for one representative width per function family plus the widths where a defect was repaired.
+-/
+namespace Fcppt.C01
+open Fcppt
+
+/-! ## Part 1: container, string and argument helpers -/
+
+theorem readAt_lt {α} (c : List α) (i : Nat) (h : i < c.length) : readAt c i = .ok c[i] := by
+  simp [readAt, List.getElem?_eq_getElem h]
+
+/-- at_optional never faults and is exactly `c[i]?` -/
+theorem atOptional_total {α} (c : List α) (i : Nat) : atOptional c i = .ok c[i]? := by
+  unfold atOptional
+  by_cases h : i < c.length
+  · simp [h, readAt_lt c i h, List.getElem?_eq_getElem h]; rfl
+  · simp [h, List.getElem?_eq_none (Nat.le_of_not_lt h)]; rfl
+
+theorem maybeFront_total {α} (c : List α) : maybeFront c = .ok c.head? := by
+  cases c with
+  | nil => rfl
+  | cons x xs => simp [maybeFront, readAt]; rfl
+
+theorem maybeBack_total {α} (c : List α) : maybeBack c = .ok c.getLast? := by
+  cases c with
+  | nil => rfl
+  | cons x xs =>
+    have h : (x :: xs).length - 1 < (x :: xs).length := by simp
+    simp only [maybeBack, List.isEmpty_cons, Bool.false_eq_true, ↓reduceIte, readAt_lt _ _ h]
+    rw [List.getLast?_eq_getElem?]
+    simp [List.getElem?_eq_getElem h]; rfl
+
+/-- pop_back: removes and returns the last element, `none` and unchanged on empty; never faults -/
+theorem popBack_total {α} (c : List α) : popBack c = .ok (c.getLast?, c.dropLast) := by
+  cases c with
+  | nil => rfl
+  | cons x xs =>
+    have h : (x :: xs).length - 1 < (x :: xs).length := by simp
+    simp only [popBack, List.isEmpty_cons, Bool.not_false, ↓reduceIte, readAt_lt _ _ h]
+    rw [List.getLast?_eq_getElem?]
+    simp [List.getElem?_eq_getElem h]; rfl
+
+theorem popFront_total {α} (c : List α) : popFront c = .ok (c.head?, c.drop 1) := by
+  cases c with
+  | nil => rfl
+  | cons x xs => simp [popFront, readAt]; rfl
+
+/-- find_opt: the mapped value of the first pair with that key; dereferences only a found iterator -/
+theorem findOpt_total {κ ν} [BEq κ] (m : List (κ × ν)) (k : κ) :
+    findOpt m k = .ok ((m.find? (fun p => p.1 == k)).map (·.2)) := by
+  unfold findOpt
+  cases h : m.findIdx? (fun p => p.1 == k) with
+  | none =>
+    have : m.find? (fun p => p.1 == k) = none := by
+      rw [List.findIdx?_eq_none_iff] at h
+      rw [List.find?_eq_none]; intro x hx; simpa using h x hx
+    simp [this]; rfl
+  | some i =>
+    have hi := List.findIdx?_eq_some_iff_getElem.mp h
+    obtain ⟨hlt, hp, hmin⟩ := hi
+    have hf : m.find? (fun p => p.1 == k) = some m[i] := by
+      rw [List.find?_eq_some_iff_getElem]
+      exact ⟨hp, i, hlt, rfl, fun j hj => by simpa using hmin j hj⟩
+    simp [readAt_lt m i hlt, hf]; rfl
+
+private theorem mapM_range_readAt {α} (src : List α) :
+    ∀ n, n ≤ src.length → (List.range n).mapM (readAt src) = (Except.ok (src.take n) : M (List α))
+  | 0, _ => rfl
+  | n + 1, h => by
+    have hn : n < src.length := by omega
+    rw [List.range_succ, List.mapM_append, mapM_range_readAt src n (by omega)]
+    simp only [List.mapM_cons, List.mapM_nil, readAt_lt src n hn]
+    show Except.ok (List.take n src ++ [src[n]]) = _
+    rw [List.take_succ, List.getElem?_eq_getElem hn]; rfl
+
+/-- array::from_range<Size>: exactly the source iff it has `Size` elements; every read is in range -/
+theorem fromRange_total {α} (size : Nat) (src : List α) :
+    fromRange size src = .ok (if src.length = size then some src else none) := by
+  unfold fromRange
+  by_cases h : src.length = size
+  · subst h
+    simp only [↓reduceIte, mapM_range_readAt src src.length (Nat.le_refl _), List.take_length]; rfl
+  · simp [h]; rfl
+
+/-- runtime_index: calls `f` with the index iff it is below `max`, terminates within `max + 1` steps -/
+theorem runtimeIndex_total {β} (max i : Nat) (f : Nat → β) (fail : β) :
+    runtimeIndex max i f fail = .ok (if i < max then f i else fail) := by
+  unfold runtimeIndex
+  have : ∀ fuel cur, cur ≤ max → cur ≤ i → max + 1 ≤ fuel + cur →
+      runtimeIndexFrom max f fail i fuel cur = .ok (if i < max then f i else fail) := by
+    intro fuel
+    induction fuel with
+    | zero => intro cur h1 _ h3; omega
+    | succ fuel ih =>
+      intro cur h1 h2 h3
+      unfold runtimeIndexFrom
+      by_cases hc : cur = max
+      · subst hc
+        have : ¬ i < cur := by omega
+        simp [this]; rfl
+      · by_cases hi : i = cur
+        · subst hi
+          have : i < max := by omega
+          simp [hc, this]; rfl
+        · simp only [hc, ↓reduceIte, hi]
+          exact ih (cur + 1) (by omega) (by omega) (by omega)
+  exact this (max + 1) 0 (by omega) (by omega) (by omega)
+
+/-- enum_::from_string: the enumerator whose name equals the string, first match, else none -/
+theorem fromString_spec (names : List String) (s : String) :
+    fromString names s = (names.findIdx? (· == s)) := by
+  unfold fromString; cases names.findIdx? (· == s) <;> rfl
+
+theorem fromString_some (names : List String) (s : String) (i : Nat) (h : fromString names s = some i) :
+    i < names.length ∧ names[i]? = some s := by
+  rw [fromString_spec] at h
+  obtain ⟨hlt, hp, _⟩ := List.findIdx?_eq_some_iff_getElem.mp h
+  exact ⟨hlt, by simp [List.getElem?_eq_getElem hlt]; simpa using hp⟩
+
+/-- is_flag (repaired) is total on every string — including the lone "-" on which the unrepaired
+version reads past the end -/
+theorem isFlag_total (s : Str) : ∃ r, isFlag s = .ok r := by
+  unfold isFlag
+  cases s with
+  | nil => exact ⟨none, rfl⟩
+  | cons c0 t =>
+    cases t with
+    | nil =>
+      by_cases h : isDash c0 <;> simp [readAt, h, pure, Except.pure, bind, Except.bind]
+    | cons c1 t2 =>
+      by_cases h : isDash c0 <;> by_cases h1 : isDash c1 <;>
+        simp [readAt, h, h1, pure, Except.pure, bind, Except.bind]
+
+theorem isFlag_spec (s : Str) :
+    isFlag s = .ok (match s with
+      | [] => none
+      | c0 :: t => if !isDash c0 then none else
+          match t with
+          | [] => some (true, [])
+          | c1 :: t2 => if isDash c1 then some (false, t2) else some (true, c1 :: t2)) := by
+  unfold isFlag
+  cases s with
+  | nil => rfl
+  | cons c0 t =>
+    cases t with
+    | nil => by_cases h : isDash c0 <;> simp [readAt, h, pure, Except.pure, bind, Except.bind]
+    | cons c1 t2 =>
+      by_cases h : isDash c0 <;> by_cases h1 : isDash c1 <;>
+        simp [readAt, h, h1, pure, Except.pure, bind, Except.bind]
+
+/-- the defect repaired by 2723549: the old is_flag faults (reads `*end()`) on exactly the lone dash -/
+example : isFlagOld ['-'] = .error .oob ∧ isFlag ['-'] = .ok (some (true, [])) := ⟨rfl, rfl⟩
+
+/-- next_arg is total (terminates within `size + 1` iterations, reads only inside the vector) and
+its result is the index of an argument that is not a flag. -/
+theorem nextArg_total (args : List Str) (names : List (Str × Bool)) :
+    ∃ r, nextArg args names = .ok r ∧
+      (∀ i, r = some i → i < args.length ∧ ∃ a, args[i]? = some a ∧ isFlag a = .ok none) := by
+  unfold nextArg
+  have : ∀ fuel cur, cur ≤ args.length → args.length + 1 ≤ fuel + cur →
+      ∃ r, nextArgFrom args names fuel cur = .ok r ∧
+        (∀ i, r = some i → i < args.length ∧ ∃ a, args[i]? = some a ∧ isFlag a = .ok none) := by
+    intro fuel
+    induction fuel with
+    | zero => intro cur h1 h2; omega
+    | succ fuel ih =>
+      intro cur h1 h2
+      unfold nextArgFrom
+      by_cases hc : cur = args.length
+      · exact ⟨none, by simp [hc]; rfl, by simp⟩
+      · have hlt : cur < args.length := by omega
+        simp only [hc, ↓reduceIte, readAt_lt args cur hlt]
+        obtain ⟨r, hr⟩ := isFlag_total args[cur]
+        cases r with
+        | none =>
+          refine ⟨some cur, by simp [hr, bind, Except.bind]; rfl, ?_⟩
+          intro i hi
+          cases hi
+          exact ⟨hlt, args[cur], by simp [List.getElem?_eq_getElem hlt], hr⟩
+        | some fl =>
+          obtain ⟨sh, nm⟩ := fl
+          simp only [hr, bind, Except.bind]
+          by_cases hskip : cur + 1 ≠ args.length ∧ names.contains (nm, sh) = true
+          · simp only [hskip, and_self, ↓reduceIte, ne_eq, not_false_eq_true]
+            exact ih (cur + 1 + 1) (by omega) (by omega)
+          · simp only [hskip, ↓reduceIte]
+            exact ih (cur + 1) (by omega) (by omega)
+  exact this (args.length + 1) 0 (by omega) (by omega)
+
+/-- read_chars hands over exactly the requested prefix or nothing; never more than was read -/
+theorem readChars_spec (stream : List Nat) (count : Nat) :
+    (readChars stream count = none ↔ stream.length < count) ∧
+    (∀ r, readChars stream count = some r → r.length = count ∧ r = stream.take count) := by
+  unfold readChars
+  by_cases h : count ≤ stream.length
+  · simp [h] <;> omega
+  · simp [h] <;> omega
+
+/-- file_size: whatever the operating system answers, the result is an optional (no exception) -/
+theorem fileSize_total (os : Option Nat) : fileSize os = none ∨ ∃ n, fileSize os = some n ∧ os = some n := by
+  unfold fileSize
+  cases os with
+  | none => exact Or.inl rfl
+  | some n => by_cases h : n = 2 ^ 64 - 1 <;> simp [h]
+
+/-! ## Part 2: the translated scalar helpers are total under "exact result representable"
+
+Each line is the C06 correctness theorem of that instantiation, in the totality form. -/
+
+open Fcppt.Gen Fcppt.C06
+
+theorem log2_u32_total (x : Int) (h : IntTy.u32.InRange x) (hx : 0 < x) : ∃ r, log2_u32 x = .ok r :=
+  let ⟨q, hq, _⟩ := log2_u32_correct x h hx; ⟨q, hq⟩
+theorem log2_u64_total (x : Int) (h : IntTy.u64.InRange x) (hx : 0 < x) : ∃ r, log2_u64 x = .ok r :=
+  let ⟨q, hq, _⟩ := log2_u64_correct x h hx; ⟨q, hq⟩
+theorem log2_u8_total (x : Int) (h : IntTy.u8.InRange x) (hx : 0 < x) : ∃ r, log2_u8 x = .ok r :=
+  let ⟨q, hq, _⟩ := log2_u8_correct x h hx; ⟨q, hq⟩
+theorem next_power_of_2_u32_total (x : Int) (h : IntTy.u32.InRange x) (hr : x ≤ 2147483648) :
+    ∃ r, next_power_of_2_u32 x = .ok r :=
+  let ⟨q, hq, _⟩ := next_power_of_2_u32_correct x h hr; ⟨q, hq⟩
+theorem next_power_of_2_u8_total (x : Int) (h : IntTy.u8.InRange x) (hr : x ≤ 128) :
+    ∃ r, next_power_of_2_u8 x = .ok r :=
+  let ⟨q, hq, _⟩ := next_power_of_2_u8_correct x h hr; ⟨q, hq⟩
+theorem ceil_div_u32_total (a b : Int) (ha : IntTy.u32.InRange a) (hb : IntTy.u32.InRange b) :
+    ∃ r, ceil_div_u32 a b = .ok r := by
+  by_cases h : b = 0
+  · subst h; exact ⟨none, ceil_div_u32_zero a⟩
+  · obtain ⟨q, hq, _⟩ := ceil_div_u32_correct a b ha hb h; exact ⟨some q, hq⟩
+theorem ceil_div_signed_i32_total (a b : Int) (ha : IntTy.i32.InRange a) (hb : IntTy.i32.InRange b)
+    (hrep : ∀ q, IsCeilDiv a b q → IntTy.i32.InRange q) : ∃ r, ceil_div_signed_i32 a b = .ok r := by
+  by_cases h : b = 0
+  · subst h; exact ⟨none, ceil_div_signed_i32_zero a⟩
+  · obtain ⟨q, hq, _⟩ := ceil_div_signed_i32_correct a b ha hb h hrep; exact ⟨some q, hq⟩
+theorem ceil_div_signed_i64_total (a b : Int) (ha : IntTy.i64.InRange a) (hb : IntTy.i64.InRange b)
+    (hrep : ∀ q, IsCeilDiv a b q → IntTy.i64.InRange q) : ∃ r, ceil_div_signed_i64 a b = .ok r := by
+  by_cases h : b = 0
+  · subst h; exact ⟨none, ceil_div_signed_i64_zero a⟩
+  · obtain ⟨q, hq, _⟩ := ceil_div_signed_i64_correct a b ha hb h hrep; exact ⟨some q, hq⟩
+theorem div_i32_total (a b : Int) (ha : IntTy.i32.InRange a) (hb : IntTy.i32.InRange b)
+    (hr : b ≠ 0 → IntTy.i32.InRange (Int.tdiv a b)) : ∃ r, div_i32 a b = .ok r := by
+  by_cases h : b = 0
+  · subst h; exact ⟨none, div_i32_zero a⟩
+  · exact ⟨_, div_i32_correct a b ha hb h (hr h)⟩
+theorem mod_u8_total (a b : Int) (ha : IntTy.u8.InRange a) (hb : IntTy.u8.InRange b) : ∃ r, mod_u8 a b = .ok r := by
+  by_cases h : b = 0
+  · subst h; exact ⟨none, mod_u8_zero a⟩
+  · exact ⟨_, mod_u8_correct a b ha hb h⟩
+theorem clamp_i16_total (v lo hi : Int) (hv : IntTy.i16.InRange v) (hl : IntTy.i16.InRange lo) (hh : IntTy.i16.InRange hi) :
+    ∃ r, clamp_i16 v lo hi = .ok r := ⟨_, clamp_i16_correct v lo hi hv hl hh⟩
+theorem diff_u8_total (a b : Int) (ha : IntTy.u8.InRange a) (hb : IntTy.u8.InRange b)
+    (hr : IntTy.u8.InRange (if a < b then b - a else a - b)) : ∃ r, diff_u8 a b = .ok r :=
+  ⟨_, diff_u8_correct a b ha hb hr⟩
+theorem diff_i32_total (a b : Int) (ha : IntTy.i32.InRange a) (hb : IntTy.i32.InRange b)
+    (hr : IntTy.i32.InRange (if a < b then b - a else a - b)) : ∃ r, diff_i32 a b = .ok r :=
+  ⟨_, diff_i32_correct a b ha hb hr⟩
+theorem truncation_check_i16_u8_total (x : Int) (h : IntTy.u8.InRange x) : ∃ r, truncation_check_i16_u8 x = .ok r :=
+  ⟨_, truncation_check_i16_u8_correct x h⟩
+theorem truncation_check_u8_i64_total (x : Int) (h : IntTy.i64.InRange x) : ∃ r, truncation_check_u8_i64 x = .ok r :=
+  ⟨_, truncation_check_u8_i64_correct x h⟩
+theorem from_int_u8_u16_total (x size : Int) (h : IntTy.u16.InRange x) (hs : IntTy.u8.InRange size) :
+    ∃ r, from_int_u8_u16 x size = .ok r := ⟨_, from_int_u8_u16_correct x size h hs⟩
+theorem is_power_of_2_u64_total (x : Int) (h : IntTy.u64.InRange x) : ∃ r, is_power_of_2_u64 x = .ok r :=
+  let ⟨b, hb, _⟩ := is_power_of_2_u64_correct x h; ⟨b, hb⟩
+theorem power_of_2_u32_total (e : Nat) (he : e < 32) : ∃ r, power_of_2_u32 e = .ok r :=
+  ⟨_, power_of_2_u32_correct e he⟩
+
+/-- outside the guard the model shows the fault the C++ would have: shift by the full width, INT_MIN / -1 -/
+example : power_of_2_u32 32 = .error .shift ∧ ceil_div_signed_i32 (-2147483648) (-1) = .error .signedOverflow :=
+  ⟨by rfl, by rfl⟩
+
+end Fcppt.C01
